@@ -36,7 +36,7 @@ def check(ctx):
     m = rc.build(ctx, "R13")
     pf = m.parent
     ctx.require_count("R13.1", len(m.loops), 1, pf.where(), "collection loops")
-    check_helpers(ctx, m)
+    ctx.run(check_helpers, m)
     for L in m.loops:
         r13_1(ctx, m, L)
         r13_2(ctx, m, L)
@@ -50,7 +50,7 @@ def check(ctx):
     # mechanisms this property rests on (see shared.py): a change there is reported here as well
     from . import shared as _sh
 
-    _sh.cli_layer(ctx, "gaftools.cli.realign")
+    ctx.run(_sh.cli_layer, "gaftools.cli.realign")
 
 
 def r13_1(ctx, m, L):
